@@ -136,6 +136,11 @@ def _reserved(target: str):
     return _RESERVED[target]
 
 
+def name_class(name: str) -> str:
+    c = dsdlgen.name_class_of(name)
+    return "internal" if c == "plain" and name in EXTRA_INTERNAL else c
+
+
 def needs_stropping(name: str, target: str) -> bool:
     ids, pats = _reserved(target)
     return name in ids or any(p.search(name) for p in pats)
@@ -202,7 +207,7 @@ def universe_facts(u: dict) -> dict:
                         t = a["type"]
                         if t["t"] in ("farr", "varr") and (t.get("cap", 0) >= 65535 or t.get("n", 0) >= 1000 or (t["elem"].get("bits") == 64 and max(t.get("cap", 0), t.get("n", 0)) >= 255)):
                             wide = True
-    classes = sorted({dsdlgen.name_class_of(n) for _, n in names} - {"plain"})
+    classes = sorted({name_class(n) for _, n in names} - {"plain"})
     return {
         "strop": {t: any(needs_stropping(n, t) for _, n in names) for t in ("c", "cpp", "py")},
         "cross_root": cross,
@@ -531,7 +536,7 @@ def classify_cc(d: dict, cfg: dict, mode: dict, names: dict, cache: dict, outdir
             # used verbatim where a standard header (pulled in by the generated code) defines a macro of that name
             return {"cause": "name|stdlib-macro", "detail": macro_family(culprit), "scope": ()}
         if needs_stropping(culprit, target):
-            return {"cause": "name|reserved-not-stropped", "detail": dsdlgen.name_class_of(culprit), "scope": ()}
+            return {"cause": "name|reserved-not-stropped", "detail": name_class(culprit), "scope": ()}
         return {"cause": "name|collision", "detail": culprit, "scope": ()}
     # a standard declaration is used without the header that declares it
     m = re.search(r"unknown type name '(\w+)'|^'(\w+)' (?:does not name a type|was not declared in this scope|has not been declared|undeclared)", msg)
@@ -796,7 +801,7 @@ def names_of(u: dict) -> dict:
             for b in bodies_of(td):
                 ns |= {a["name"] for a in b["attrs"] if a["k"] in ("field", "const")}
             per_type.append(([x.strip("_") for x in td["ns"]], f"{td['name'].strip('_')}_{td['major']}_{td['minor']}", ns))
-    return {"all": alln, "roots": {r["name"] for r in u["roots"]}, "nonplain": {n for n in alln if dsdlgen.name_class_of(n) != "plain"}, "per_type": per_type}
+    return {"all": alln, "roots": {r["name"] for r in u["roots"]}, "nonplain": {n for n in alln if name_class(n) != "plain"}, "per_type": per_type}
 
 
 def local_names(names: dict, rel: str) -> dict:
@@ -809,7 +814,7 @@ def local_names(names: dict, rel: str) -> dict:
             hit |= ns
     if not hit:
         return names
-    return {"all": hit, "roots": names["roots"], "nonplain": {n for n in hit if dsdlgen.name_class_of(n) != "plain"}, "per_type": names["per_type"]}
+    return {"all": hit, "roots": names["roots"], "nonplain": {n for n in hit if name_class(n) != "plain"}, "per_type": names["per_type"]}
 
 
 def layout_of(uhash: str) -> str:
@@ -1009,12 +1014,20 @@ def directed_macros() -> dict:
     return {"roots": [{"name": "mac", "types": a}, {"name": "mns", "types": b}]}
 
 
+# identifiers the built-in templates emit themselves (beyond dsdlgen.TEMPLATE_INTERNAL; used only by the directed universe)
+EXTRA_INTERNAL = [
+    "rhs", "TypeOf", "allocator_type", "HasFixedPortID", "FixedPortId", "IsServiceType", "IsRequest", "ExtentBytes", "SerializationBufferSizeBytes",
+    "IndexOf", "MAX_INDEX", "variant_npos", "alternative", "emplace", "get_if", "do_copy", "do_emplace", "destroy_current", "internal_union_value_",
+    "tag_", "Request", "Response", "Service", "bitpacked", "encoded_string", "warnings", "typing", "np", "x", "other", "args", "kwargs",
+]  # fmt: skip
+
+
 def directed_pool() -> dict:
     """Every name of every non-macro pool as attribute name, once in a structure and once in a union."""
     types = []
     kinds = [_U8, {"t": "varr", "elem": _U8, "cap": 3, "incl": True}, {"t": "farr", "elem": {"t": "bool"}, "n": 9}, {"t": "float", "bits": 32, "cast": "saturated"}]
-    for cls in ("c_kw", "cpp_kw", "py_kw", "pattern", "internal"):
-        names = dsdlgen._pool(cls)
+    for cls in ("c_kw", "cpp_kw", "py_kw", "pattern", "internal", "internal2"):
+        names = dsdlgen._pool(cls) if cls != "internal2" else [n for n in EXTRA_INTERNAL if dsdlgen._dsdl_name_ok(n) and n not in dsdlgen.TEMPLATE_INTERNAL]
         # names folding onto one identifier must not share a scope
         chunks: typing.List[typing.List[str]] = []
         for n in names:
